@@ -61,8 +61,14 @@ def budget(prop, tier):
 
 def extra(prop, tier):
     e = {"props": [prop]}
+    if prop in ("C01", "C02", "C03"):
+        # more of the hand-shaped firewall / pivot families
+        e["mix"] = {"benchmark": 0.12, "generated": 0.22, "yaml": 0.44,
+                    "family": 0.22}
     if prop in ("C09", "C10"):
         e["huge_rate"] = 0.004     # a few scenarios with more than 200 hosts
+    if prop in ("C07", "C13", "C04"):
+        e["big_rate"] = 0.06       # networks with 32-60 hosts
     if prop == "C11":
         e["modes"] = [(fo, fa, fb) for fo in (False,) for fa in (True, True,
                                                                  False)
